@@ -874,6 +874,9 @@ def replaceNonsenseWithNones(data: np.ndarray, paramName: str) -> np.ndarray:
     # NOTE: This is closely-related to the NONE_MAP.
     if np.issubdtype(data.dtype, np.floating):
         isNone = np.isnan(data)
+    elif np.issubdtype(data.dtype, np.unsignedinteger):
+        # unsigned types cannot hold min + 2 = 2 as a marker; NONE_MAP uses max - 2 for them
+        isNone = data == np.iinfo(data.dtype).max - 2
     elif np.issubdtype(data.dtype, np.integer):
         isNone = data == np.iinfo(data.dtype).min + 2
     elif np.issubdtype(data.dtype, np.str_):
